@@ -15,7 +15,8 @@ RULE = ("seeded operation histories (add start/non-start, remove incl. undefined
 ASSUMPTIONS = ["scipy KDTree with boxsize is trusted as a library",
                "re-adding an already positioned residue without removing it first is outside the engine's contract "
                "and is never generated",
-               "cut-off < min(box)/2 in all generated configurations (one periodic image per pair)"]
+               "only the nearest periodic image of a residue is considered (as the periodic KD-tree does); 12% of the small "
+               "configurations have one box edge shorter than two cut-offs"]
 REAL_VS_STUB = {"real": ["polyply.src.nonbond_engine.NonBondEngine (from_topology, add/remove/concatenate, "
                          "compute_force_point, pbc_min_dist, get_point, get_interaction, update_positions_in_molecules)",
                          "scipy.spatial.KDTree"],
@@ -80,6 +81,12 @@ def gen_job(verif_seed, tier, index):
         box = [L, L, L]
     else:
         box = [_r6(g.uniform(lo, lo + 4)) for _ in range(3)]
+    if not threshold and g.random() < 0.12:
+        # a thin (slab) box: one edge between 1.05 and 1.9 cut-offs - a neighbour can be within the cut-off both
+        # directly and through the boundary; engine and model both take the nearest image
+        ax = g.randrange(3)
+        box = [_r6(g.uniform(lo, lo + 4)) for _ in range(3)]
+        box[ax] = _r6(g.uniform(1.05, 1.9) * cut)
     tnames = sorted(sizes)
     molecules = []
     nmol = g.randint(1, 3)
